@@ -5,7 +5,8 @@ ID = "C18"
 LEAN_PROPS = ["FcpptProofs.Props.C18"]
 HARNESS = {"src": "harness/c18.cpp"}
 TIE = ("hand-written model (FcpptModel/Model/C18.lean, mirrors int_range/int_iterator, enum range/iterator, cyclic_iterator, "
-       "spiral_iterator/range, neighbours, iterator::range/adapt_range, range::size) + differential correspondence against the real templates")
+       "spiral_iterator/range, neighbours, iterator::range/adapt_range/range_comparison, iterator::base operators, range::size/empty/singular/from_pair) "
+       "+ differential correspondence against the real templates")
 RULE = ("irs ty b: digest over all 256 values e of the elements/size()/range::size lines of make_int_range(b, e) for the 8-bit types "
         "(plain and strong typedef) - all (b, e) pairs; ir/irc: boundary lattice pairs and near-boundary random pairs of the 16/32/64-bit "
         "types; er/ers/era: every (start, end) pair of enums with 1..9 enumerators over six underlying types; cyc: every boundary of "
@@ -13,14 +14,24 @@ RULE = ("irs ty b: digest over all 256 values e of the elements/size()/range::si
         "distance), plus large |k|; cycw: random walks of ++ -- it++ it-- += -= [] on vector and list; sp: spiral ranges of distance "
         "0..9 (thorough 0..12), 49, 50 from origins near 0, random and near the type limits; nb: neighbour arrays; itr/adr: every "
         "sub-range of containers up to length 6 / whole containers; mirc: the static count lists. "
+        "Every public member: iits/iit, eit (int_iterator / enum iterator used directly: == != * it++ swap, all 65536 8-bit pairs), itris/itri "
+        "(iterator::range over int_iterators, no clamp), erd (enum range constructed directly), cycp (two cyclic iterators at every position "
+        "incl. outside / at the end of the boundary, empty and different boundaries: == != < > <= >= a-b, self comparison, get, get_boundary, ->, "
+        "member / free / self swap, copy), cycx (every one- and two-step walk from every position), cycl (steps up to the limits of ptrdiff_t), "
+        "cycd (default constructor), cycc (converting constructor / assignment), spi (spiral_iterator directly, past end(), swap), sp at "
+        "exactly d+1 from the limits of int / long, itrc (range comparison); every ir / er / itr / adr line also carries *begin(), *end(), "
+        "range::empty, range::singular. Undefined behaviour that the model names (signed-overflow, div-zero) is really executed in a few "
+        "lines per run and must be reported by UBSan. "
         "An op is non-trivial if its result is not bad-op and the range is not empty; distinct = distinct op lines.")
 ASSUMPTIONS = [
     "fixed-width integer semantics of LP64 g++: rank below int promotes (bits < 32), conversions wrap modulo 2^bits, unsigned arithmetic is modular, "
     "int/long overflow is undefined (model: Fault.signedOverflow)",
     "a strong_typedef<T> behaves as T for ++, <, ==, undecorate (that transparency is property C17)",
     "std::vector / std::list iterators = indices into a list; std::distance / std::next / std::prev by their standard meaning",
-    "grid positions stay at least 20000 away from the limits of the coordinate type (the spiral model computes in unbounded integers)",
-    "cyclic_iterator: boundary non-empty and the start inside it (otherwise advance divides by zero / leaves the boundary: not part of the property)",
+    "spiral over int / long coordinates: every arithmetic operation of increment / end() is checked against the type (overflow = fault); "
+    "narrower coordinate types are not instantiated",
+    "cyclic_iterator: container iterators are positions; positions outside the boundary and empty boundaries are modelled as the code behaves "
+    "(the property speaks about non-empty boundaries with the start inside)",
     "enum = (number of enumerators, width of size_type); enumerator = its value",
 ]
 TRUSTED = ["harness/c18.cpp and the digest/line protocol (vh.hpp, Proto.lean)",
